@@ -18,6 +18,10 @@ from ..core import U, walk_local, calls_in, call_name, const, NOCONST, params, w
 ENTRY_SCRIPTS = ('pcfg_guesser.py', 'trainer.py', 'password_scorer.py', 'prince_ling.py', 'edit_rules.py')
 
 
+# options that are parsed and deliberately not used (confirmed by reading; one line of reason each)
+UNCONSUMED_OK = {}
+
+
 def _info_key(node, info):
     """program_info['K'] -> 'K'"""
     if isinstance(node, ast.Subscript) and isinstance(node.value, ast.Name) and node.value.id == info and isinstance(const(node.slice), str):
@@ -89,6 +93,38 @@ def option_round_trip(ctx, rule, entries=ENTRY_SCRIPTS, floor=10):
         for d, K in default_key.items():
             if K not in stored_from and any(d in ds for ds in stored_from.values()):
                 continue        # reported above as a mismatch
+        # an option that is stored must be consumed: the key it is kept under is read somewhere else in the script (seed C16-fa
+        # renamed dest and key of --all_lower to 'all_lower' while main() still hands program_info['skip_case'] - now a constant
+        # False - to the grammar: the flag is silently ignored).  Undecided when the dictionary leaves the script as a whole.
+        m = ctx.repo.modules[rel]
+        read_keys = set()
+        whole = False
+        for lname, ofn in m.funcs.items():
+            if ofn is fn or not isinstance(ofn, (ast.FunctionDef, ast.AsyncFunctionDef)):
+                continue
+            for x in walk_local(ofn):
+                if isinstance(x, ast.Subscript) and isinstance(x.ctx, ast.Load) and isinstance(const(x.slice), str):
+                    read_keys.add(const(x.slice))
+                elif isinstance(x, ast.Call) and isinstance(x.func, ast.Attribute) and x.func.attr in ('get', 'pop') and x.args \
+                        and isinstance(const(x.args[0]), str):
+                    read_keys.add(const(x.args[0]))
+                elif isinstance(x, ast.Call) and call_name(x) not in m.funcs:       # callees in this script are scanned themselves
+                    for a in list(x.args) + [k.value for k in x.keywords]:
+                        if isinstance(a, ast.Name) and a.id in ('program_info', info) or (isinstance(a, ast.Starred) and U(a.value) in ('program_info', info)):
+                            whole = True
+                    if any(k.arg is None and U(k.value) in ('program_info', info) for k in x.keywords):
+                        whole = True
+        for K in sorted(stored_from):
+            if K in read_keys or K in UNCONSUMED_OK.get(rel, ()):
+                continue
+            if whole:
+                continue        # the dictionary is handed on as a whole (trainer.py -> run_trainer): its readers are not in this script
+            ok = False
+            if True:
+                ctx.bad(rule, q, "%s['%s'] is stored from the command line and read nowhere in %s" % (info, K, rel),
+                        'an option that nothing consumes is silently ignored: the run behaves as if the flag had not been given '
+                        '(and whatever main() reads instead keeps its built-in default)', {'stored_from': sorted(stored_from[K])},
+                        fn, firm=True)
     if ctx.floor(rule, 'entry scripts', n, floor, 'options stored from the parsed command line') and ok:
         ctx.ok(rule, 'entry scripts', 'every option of the %d stored is kept under the key its default comes from' % n)
 
